@@ -86,7 +86,7 @@ def gen_plan(rng, tier):
             elif kind == "shift":
                 o["c"] = rng.choice([1.0, -3.5, 100.0, 1e3])
             elif kind == "scale":
-                o["c"] = rng.choice([2.0, -1.0, 0.5, 3.0, -7.25, 1e-3, 1e4])
+                o["c"] = rng.choice([2.0, -1.0, 0.5, 3.0, -7.25, 1e-3, 1e4, 1e-18, -1e-40, 1e-120, 1e30])      # far from 1 too: no absolute thresholds in the analysis
             elif kind == "rename":
                 o["salt"] = rng.getrandbits(16)
             ops.append(o)
